@@ -88,6 +88,9 @@ def check_case(case, ctx):
     if cp["lp"] is not None and abs(cp["lp"] - cl["lp"]) > 1e-3 + 1e-2 * abs(cp["lp"]) + extra:
         raise Violation("probability", f"planar best log-probability {cp['lp']}, lat/lon {cl['lp']} (unit {unit} m at {org})")
     classes = ["family:" + cfg["family"], "lat-band:%d" % (10 * int(abs(org[0]) // 10)), "unit:%g" % unit]
+    lons = [n[1][1] for n in lg]
+    if max(lons) - min(lons) > 180:
+        classes.append("straddles-antimeridian")
     if cp["keys"] != cl["keys"]:
         classes.append("different-path")
     ctx.record(case, cp["n_emit"] >= 2 and len({tuple(k[:-2]) for k in cp["keys"]}) >= 2, classes, {"planar": cp, "latlon_lp": cl["lp"]})
@@ -104,6 +107,9 @@ def strategy(tier):
                                    config_kw={"ne": False, "width": None, "cutoffs": False}))
         case["config"]["obs_noise"] = max(case["config"]["obs_noise"], 0.25)
         case["origin"] = draw(gen.origin())
+        if draw(st.integers(0, 5)) == 0:
+            # "any longitude": put the map on the antimeridian (no cut-offs, so the start query covers the whole globe)
+            case["origin"][1] = draw(st.sampled_from([180.0, -180.0, 179.999, -179.999, 179.99]))
         case["unit"] = draw(st.sampled_from([20.0, 50.0, 100.0, 400.0]))
         return case
     return _s()
